@@ -481,9 +481,10 @@ class History(object):
         return (max(written), new) if written else wrote
 
 
-# MUST_CATCH (selftest/breaks_c11.py):
-#   c11-seqnum-from-best-recoverable   publish: highest_seqnum()+1 -> best recoverable seqnum + 1
-#   c11-best-version-by-roothash       ServerMap.best_recoverable_version sorts by root hash before seqnum
-#   c11-mode-read-ignores-newer        _check_for_done MODE_READ does not extend the search on newer evidence
-#   c11-highest-seqnum-ignores-unrec   ServerMap.highest_seqnum only looks at recoverable versions
-#   c11-mode-read-stops-at-first       MODE_READ done as soon as anything is recoverable (no k+epsilon)
+# MUST_CATCH (selftest/breaks_c11.py; the unchanged tree shows no violation):
+#   c11-seqnum-from-best-recoverable          publish: highest_seqnum()+1 -> best recoverable seqnum+1   caught  publish-seqnum-not-above-every-seqnum-its-survey-saw
+#   c11-highest-seqnum-ignores-unrecoverable  ServerMap.highest_seqnum looks at recoverable versions only caught  same key
+#   c11-best-version-by-roothash              best_recoverable_version sorts by root hash before seqnum   caught  read-returned-older-than-best-located-version
+#   c11-mode-read-picks-lowest                best_recoverable_version returns the lowest                 caught  same key
+#   c11-mode-read-ignores-newer               MODE_READ does not extend the search on newer evidence      caught  mode-read-finished-with-newer-evidence-and-unqueried-servers
+#   c11-mode-read-newer-evidence-off-by-one   evidence threshold highest+1                                caught  same key
